@@ -31,7 +31,7 @@ def divisors(n):
 
 
 def generate(rng, tier):
-    n = 900 if tier == "quick" else 15000
+    n = 900 if tier == "quick" else 100000
     for _ in range(n):
         shape = rng.choice(SHAPES)
         size = int(np.prod(shape))
